@@ -347,6 +347,7 @@ def write_climatology(scratch, rng, three_d, zero_sum=False):
         field[:] = 5.0
         land[:] = False
     field = np.where(land, np.nan, field)
+    field = field * rng.choice([1.0, 1.0, 1.0, 2.0 ** -36, 2.0 ** -44, 2.0 ** 12])  # physical units are arbitrary
     sfield = field * 2.0 + 1.0
     sfield[: max(2, nlat // 2), : max(2, nlon // 2)] = np.nan  # the second variable has no data over this block
     if three_d:
@@ -396,7 +397,17 @@ def part_creator(ctx) -> None:
                 else:
                     continue
                 bbox = [float(lon[j1]) - 0.25, float(lat[i1]) - 0.25, float(lon[j2 - 1]) + 0.25, float(lat[i2 - 1]) + 0.25]
-                if it % 3 == 0 and i2 - i1 >= 3 and j2 - j1 >= 3:
+                if it % 7 == 3:
+                    # a degenerate box on one grid meridian / parallel: the cells on that line are the cells inside
+                    if rng.random() < 0.5:
+                        bbox = [float(lon[j1]), float(lat[i1]) - 0.25, float(lon[j1]), float(lat[i2 - 1]) + 0.25]
+                    else:
+                        bbox = [float(lon[j1]) - 0.25, float(lat[i1]), float(lon[j2 - 1]) + 0.25, float(lat[i1])]
+                    chk = field[(lat >= bbox[1]) & (lat <= bbox[3])][:, (lon >= bbox[0]) & (lon <= bbox[2])]
+                    if not np.isfinite(chk).any() or np.nansum(chk) == 0:
+                        continue
+                    ctx.count("c20.create_config_degenerate_boxes")
+                elif it % 3 == 0 and i2 - i1 >= 3 and j2 - j1 >= 3:
                     # edges exactly on grid coordinates: 'inside' may mean the closed or the open box, but the same on
                     # all four sides -- both readings are admissible, a mixture is not
                     bbox = [float(lon[j1]), float(lat[i1]), float(lon[j2 - 1]), float(lat[i2 - 1])]
@@ -505,12 +516,14 @@ def part_creator(ctx) -> None:
                 else:
                     for f in tests[tname]:
                         observed[(tname, f)] = s.get(f)
+            mag = max(1e-300, float(np.nanmax(np.abs(cells))))
+            atol = 1e-9 * min(1.0, mag)  # the fields come in arbitrary physical units
             bad = {f"{k[0]}.{k[1]}": {"expected": v, "observed": observed.get(k)} for k, v in exprs.items()
-                   if observed.get(k) is None or not math.isclose(observed[k], v, rel_tol=1e-9, abs_tol=1e-9)}
+                   if observed.get(k) is None or not math.isclose(observed[k], v, rel_tol=1e-9, abs_tol=atol)}
             if bad and alt_stats is not None:
                 # second admissible reading: cells on the edges excluded on all four sides
                 bad2 = {f"{k[0]}.{k[1]}": {"expected(open box)": v, "observed": observed.get(k)} for k, v in alt_exprs.items()
-                        if v is None or observed.get(k) is None or not math.isclose(observed[k], v, rel_tol=1e-9, abs_tol=1e-9)}
+                        if v is None or observed.get(k) is None or not math.isclose(observed[k], v, rel_tol=1e-9, abs_tol=atol)}
                 if not bad2:
                     bad = {}
                 else:
